@@ -15,7 +15,9 @@ F  LiveQueryGen: schedules from the specification - live queries at every positi
    Every schedule is also run without its live queries (twin run).
 """
 import collections
+import concurrent.futures
 import json
+import os
 import vlib
 
 MANIFEST = {
@@ -40,9 +42,22 @@ MANIFEST = {
 FAMILY = "livequery"
 
 
-def _gen(run, sc, genset, extra="", timeout=900):
-    g = vlib.tlc(FAMILY, "LiveQueryGen", "LiveQueryGen.cfg", scratch=sc, timeout=timeout,
-                 consts='CONSTANT GenSet = "%s"\n%s' % (genset, extra))
+def _tlc_jobs(sc, jobs):
+    """run TLC jobs {name: (module, cfg, kwargs)} concurrently, each in its own scratch sub-directory"""
+    def one(item):
+        name, (module, cfg, kw) = item
+        d = os.path.join(sc, "tlc-" + name.replace("/", "-"))
+        os.makedirs(d, exist_ok=True)
+        return name, vlib.tlc(FAMILY, module, cfg, scratch=d, workers=4, **kw)
+    with concurrent.futures.ThreadPoolExecutor(max_workers=4) as ex:
+        return dict(ex.map(one, jobs.items()))
+
+
+def _gen_job(genset, extra="", timeout=2400):
+    return ("LiveQueryGen", "LiveQueryGen.cfg", {"timeout": timeout, "consts": 'CONSTANT GenSet = "%s"\n%s' % (genset, extra)})
+
+
+def _gen_ok(run, g, genset):
     vlib.expect_tlc_ok(g, "LiveQueryGen/" + genset)
     vlib.require(g.traces and g.infos, "LiveQueryGen/%s printed no behaviours" % genset)
     run.add_tlc(g, "LiveQueryGen/" + genset)
@@ -63,36 +78,41 @@ def main():
     thorough = run.tier == "thorough"
     vh = vlib.build_vh(FAMILY)
     with vlib.Scratch("verif-c29-") as sc:
+        sets = [("pos4" if thorough else "pos3", ""),
+                ("cond-thorough" if thorough else "cond-quick", "CONSTANT ChunkSize = %d" % (100 if thorough else 20)),
+                ("rand", "CONSTANT Seed = %d\nCONSTANT NRand = %d\nCONSTANT Depth = %d" %
+                 (run.seed, 300 if thorough else 60, 40 if thorough else 30))]
+        jobs = {"mc-cov": ("LiveQueryMC", "LiveQueryMC.cfg", {"coverage": True, "timeout": 900, "consts": "CONSTANT MaxPackets = 2"}),
+                "mc": ("LiveQueryMC", "LiveQueryMC.cfg", {"timeout": 1500, "consts": "CONSTANT MaxPackets = %d" % (4 if thorough else 3)}),
+                "mc-neg": ("LiveQueryMC", "LiveQueryMCNeg.cfg", {"timeout": 900, "consts": "CONSTANT MaxPackets = 3"}),
+                "gen-pos2": _gen_job("pos2")}
+        for gs, extra in sets:
+            jobs["gen-" + gs] = _gen_job(gs, extra)
+        res = _tlc_jobs(sc, jobs)
+
         # ---- M: the design, exhaustively; vacuity guard via coverage on the smallest bound
-        cov = vlib.tlc(FAMILY, "LiveQueryMC", "LiveQueryMC.cfg", coverage=True, scratch=sc, timeout=900,
-                       consts="CONSTANT MaxPackets = 2")
+        cov = res["mc-cov"]
         vlib.expect_tlc_ok(cov, "LiveQueryMC (coverage)")
         if cov.violation:
             raise vlib.MachineryError("LiveQuery design violates %s (spec error, not a code verdict)" % cov.violation)
         for a in ("Packet", "Writeout", "LiveQuery"):
             vlib.require(cov.coverage.get(a, (0, 0))[1] > 0, "vacuous: action %s never taken" % a)
         run.add_tlc(cov, "LiveQueryMC/coverage")
-        m = vlib.tlc(FAMILY, "LiveQueryMC", "LiveQueryMC.cfg", scratch=sc, timeout=1500,
-                     consts="CONSTANT MaxPackets = %d" % (4 if thorough else 3))
+        m = res["mc"]
         vlib.expect_tlc_ok(m, "LiveQueryMC")
         if m.violation:
             raise vlib.MachineryError("LiveQuery design violates %s (spec error, not a code verdict)" % m.violation)
         run.add_tlc(m, "LiveQueryMC")
-        neg = vlib.tlc(FAMILY, "LiveQueryMC", "LiveQueryMCNeg.cfg", scratch=sc, timeout=900,
-                       consts="CONSTANT MaxPackets = 3")
+        neg = res["mc-neg"]
         vlib.require(neg.violation in ("TwinOK", "LiveChangesNothing"),
                      "negative model run (live snapshot resets the counters) was not rejected: %s %s" % (neg.violation, neg.error))
         run.cov["negative_model_run"] = "LiveResets=TRUE violates %s" % neg.violation
 
         # ---- F: schedules from the specification on the real manager / database / query engine
-        sets = [("pos4" if thorough else "pos3", ""),
-                ("cond-thorough" if thorough else "cond-quick", "CONSTANT ChunkSize = %d" % (150 if thorough else 40)),
-                ("rand", "CONSTANT Seed = %d\nCONSTANT NRand = %d\nCONSTANT Depth = %d" %
-                 (run.seed, 300 if thorough else 60, 40 if thorough else 30))]
         universe = None
         behs = []
         for gs, extra in sets:
-            g = _gen(run, sc, gs, extra, timeout=2400)
+            g = _gen_ok(run, res["gen-" + gs], gs)
             universe = g.infos[0]
             behs += g.traces
             run.cov.setdefault("behaviours_per_family", {})[gs] = len(g.traces)
@@ -131,7 +151,7 @@ def main():
             run.cov["failing_steps_by_class"] = dict(classes)
 
         # ---- negative control: one expected live row corrupted per behaviour must be rejected
-        g = _gen(run, sc, "pos2")
+        g = _gen_ok(run, res["gen-pos2"], "pos2")
         nouts, nsumm = _replay(vh, g.infos[0], g.traces, negative=True)
         rejected = {o["id"] for o in nouts if o.get("ok") is False and o["desc"].get("cls") == "live-rows-differ"}
         vlib.require(len(rejected) == len(g.traces),
